@@ -19,3 +19,17 @@ Theorem c14_two_seconds : forall esc ops s i j ti vi oi tj vj oj, (i < j)%nat ->
   evaluated oi = true -> evaluated oj = true -> ti + 2 * SEC <= tj.
 Proof. intros esc ops s. apply (c14_totp_spacing k_prop esc ops s). vm_compute. discriminate. Qed.
 Goal True. idtac "@@OBL c14_two_seconds". Abort.
+
+(* failCount is a uint32: with the constants of the tree the count never exceeds 125, so the
+   counter computed mod 2^32 and the unbounded counter of the theorems are the same machine *)
+Lemma c14_uint32_consts : forall ops,
+  let k := {| min_secs := minSecsBetweenTOTPValidations; reset_hours := numHoursForLocalTOTPRateLimitReset;
+              every := numFailedTOTPChecksForTimeoutIncrease |} in
+  run_ops32 k true purge_never rl0 ops = run_ops k true purge_never rl0 ops /\
+  0 <= fail_count (fst (run_ops k true purge_never rl0 ops)) <= 125.
+Proof.
+  intros ops k. split.
+  - apply c14_uint32_exact; vm_compute; try reflexivity; discriminate.
+  - apply (c14_count_bounded k ops); vm_compute; try reflexivity; discriminate.
+Qed.
+Goal True. idtac "@@OBL c14_uint32_consts". Abort.
